@@ -3,6 +3,9 @@
     frames is Frame.v (C10), the label discipline that makes party behaviour a monotone function of
     the delivered (label, payload) set is C08/C09. *)
 Require Import MPyC.Crash.
+Require Import MPyC.CrashExec.
+From Coq Require Import List ZArith.
+Import ListNotations.
 
 (** For ANY system whose parties' sending behaviour and completed outputs are monotone in the set
     of delivered messages, and ANY faulty variant that can only send a subset of what the correct
@@ -55,3 +58,137 @@ Proof.
   - intros m [E|[_ E]]; [left; exact E|right; exact E].
   - apply reach_deliver; [apply reach_empty|reflexivity].
 Qed.
+
+(** ------------------------------------------------------------------------------------------------
+    Concrete, executable instance (CrashExec.v): m parties running a straight-line program of
+    Input / Add / Mul (local product + GRR resharing by the 2t+1 dealers of its label) / Output
+    operations over Z_p without PRSS, at the level of individual messages (src, dst, label, payload).
+    [sends D pid] / [results D pid] are computable functions: the messages party pid has sent and the
+    outputs it has completed once exactly the messages D have been delivered.  The correspondence run
+    (harness/props/c36_model.py) compares them with the real runtime, message by message. *)
+
+(** the concrete system is monotone in the delivered messages ... *)
+Theorem C36_exec_sends_monotone :
+  forall (p : Z) (m t : nat) (inp : nat -> Z) (tape : nat -> nat -> list Z) (prog : list op) (D D' : list msg) (pid : nat),
+    incl D D' -> incl (sends p m t inp tape prog D pid) (sends p m t inp tape prog D' pid).
+Proof. exact sends_mono. Qed.
+Print Assumptions C36_exec_sends_monotone.
+
+Theorem C36_exec_results_monotone :
+  forall (p : Z) (m t : nat) (inp : nat -> Z) (tape : nat -> nat -> list Z) (prog : list op) (D D' : list msg) (pid : nat),
+    incl D D' -> incl (results p m t inp tape prog D pid) (results p m t inp tape prog D' pid).
+Proof. exact results_mono. Qed.
+Print Assumptions C36_exec_results_monotone.
+
+(** ... a party c that emits only the messages selected by ANY predicate keep (in particular
+    [prefix_keep order k]: the first k messages of its send order) is a sub-behaviour ... *)
+Theorem C36_exec_crash_is_sub_behaviour :
+  forall (p : Z) (m t : nat) (inp : nat -> Z) (tape : nat -> nat -> list Z) (prog : list op)
+         (keep : msg -> bool) (c : nat) (D : list msg),
+    incl (sends_crashed p m t inp tape prog keep c D) (sends_all p m t inp tape prog D).
+Proof. exact crash_sub_behaviour. Qed.
+Print Assumptions C36_exec_crash_is_sub_behaviour.
+
+(** ... so Crash.crash_safe applies: after ANY delivery schedule of the crashed system, every output any
+    party has completed is completed, identically, in every completed crash-free run S *)
+Theorem C36_exec_crash_safe :
+  forall (p : Z) (m t : nat) (inp : nat -> Z) (tape : nat -> nat -> list Z) (prog : list op)
+         (keep : msg -> bool) (c : nat) (S : list msg),
+    incl (sends_all p m t inp tape prog S) S ->
+    forall D, lreach (sends_crashed p m t inp tape prog keep c) D ->
+    forall o, In o (results_all p m t inp tape prog D) -> In o (results_all p m t inp tape prog S).
+Proof. exact crash_exec_safe. Qed.
+Print Assumptions C36_exec_crash_safe.
+
+(** the crash-free closure [cf] (iteration with fuel = number of operations) IS a completed crash-free run,
+    with at most one message per (src, dst, label) *)
+Theorem C36_exec_crash_free_run_closed :
+  forall (p : Z) (m t : nat) (inp : nat -> Z) (tape : nat -> nat -> list Z) (prog : list op),
+    incl (sends_all p m t inp tape prog (cf p m t inp tape prog)) (cf p m t inp tape prog).
+Proof. exact cf_closed. Qed.
+Print Assumptions C36_exec_crash_free_run_closed.
+
+Theorem C36_exec_crash_free_run_functional :
+  forall (p : Z) (m t : nat) (inp : nat -> Z) (tape : nat -> nat -> list Z) (prog : list op),
+    functional (cf p m t inp tape prog).
+Proof. exact cf_functional. Qed.
+Print Assumptions C36_exec_crash_free_run_functional.
+
+(** C36 for the concrete model: for every program, inputs, tapes, crashing party c, send order of c, cut
+    position k and delivery schedule, an output (pid, id, v) completed by anybody and the crash-free output
+    (pid, id, v') have v = v' *)
+Theorem C36_exec_no_wrong_value :
+  forall (p : Z) (m t : nat) (inp : nat -> Z) (tape : nat -> nat -> list Z) (prog : list op)
+         (c : nat) (order : list (nat * nat)) (k : nat) (D : list msg),
+    lreach (sends_crashed p m t inp tape prog (prefix_keep order k) c) D ->
+    forall (pid id : nat) (v v' : Z),
+      In (pid, id, v) (results_all p m t inp tape prog D) -> In (pid, id, v') (cf_results p m t inp tape prog) -> v = v'.
+Proof. exact (fun p m t inp tape prog c order k => crash_exec_no_wrong_value p m t inp tape prog (prefix_keep order k) c). Qed.
+Print Assumptions C36_exec_no_wrong_value.
+
+(** ... for any subset of c's messages, not only prefixes *)
+Theorem C36_exec_no_wrong_value_any_subset :
+  forall (p : Z) (m t : nat) (inp : nat -> Z) (tape : nat -> nat -> list Z) (prog : list op)
+         (keep : msg -> bool) (c : nat) (D : list msg),
+    lreach (sends_crashed p m t inp tape prog keep c) D ->
+    forall (pid id : nat) (v v' : Z),
+      In (pid, id, v) (results_all p m t inp tape prog D) -> In (pid, id, v') (cf_results p m t inp tape prog) -> v = v'.
+Proof. exact crash_exec_no_wrong_value. Qed.
+Print Assumptions C36_exec_no_wrong_value_any_subset.
+
+(** and every output completed in the crashed system is a crash-free output *)
+Theorem C36_exec_outputs_subset :
+  forall (p : Z) (m t : nat) (inp : nat -> Z) (tape : nat -> nat -> list Z) (prog : list op)
+         (keep : msg -> bool) (c : nat) (D : list msg),
+    lreach (sends_crashed p m t inp tape prog keep c) D ->
+    incl (results_all p m t inp tape prog D) (cf_results p m t inp tape prog).
+Proof. exact crash_exec_outputs_subset. Qed.
+Print Assumptions C36_exec_outputs_subset.
+
+(** the executable closure [run_closed c order k] = the survivors' outputs when c stops after the k-th message
+    of its send order and everything sent is eventually delivered: it is attained by a schedule whose
+    delivered list is closed under the crashed system's sends, it bounds every other schedule, and its
+    values are the crash-free ones *)
+Theorem C36_exec_run_closed_attained :
+  forall (p : Z) (m t : nat) (inp : nat -> Z) (tape : nat -> nat -> list Z) (prog : list op)
+         (c : nat) (order : list (nat * nat)) (k : nat),
+    exists D, lreach (sends_crashed p m t inp tape prog (prefix_keep order k) c) D /\
+              incl (sends_crashed p m t inp tape prog (prefix_keep order k) c D) D /\
+              incl (run_closed p m t inp tape prog c order k) (survivors_results p m t inp tape prog c D) /\
+              incl (survivors_results p m t inp tape prog c D) (run_closed p m t inp tape prog c order k).
+Proof. exact run_closed_attained. Qed.
+Print Assumptions C36_exec_run_closed_attained.
+
+Theorem C36_exec_run_closed_bounds_every_schedule :
+  forall (p : Z) (m t : nat) (inp : nat -> Z) (tape : nat -> nat -> list Z) (prog : list op)
+         (c : nat) (order : list (nat * nat)) (k : nat) (D : list msg),
+    lreach (sends_crashed p m t inp tape prog (prefix_keep order k) c) D ->
+    incl (survivors_results p m t inp tape prog c D) (run_closed p m t inp tape prog c order k).
+Proof. exact run_closed_complete. Qed.
+Print Assumptions C36_exec_run_closed_bounds_every_schedule.
+
+Theorem C36_exec_run_closed_values_correct :
+  forall (p : Z) (m t : nat) (inp : nat -> Z) (tape : nat -> nat -> list Z) (prog : list op)
+         (c : nat) (order : list (nat * nat)) (k : nat) (pid id : nat) (v v' : Z),
+    In (pid, id, v) (run_closed p m t inp tape prog c order k) -> In (pid, id, v') (cf_results p m t inp tape prog) -> v = v'.
+Proof. exact run_closed_correct. Qed.
+Print Assumptions C36_exec_run_closed_values_correct.
+
+(** Non-vacuity: 3 parties, t = 1, p = 101, inputs 5, 7, 11; v3 = v0*v1, v4 = v3*v2; output 5 opens v4 to
+    everybody, output 6 opens v3 to party 1 only.  Party 0 sends 8 messages.  Crash-free: all four outputs
+    complete (5*7*11 = 82 mod 101, 5*7 = 35).  Party 0 stopping after its 7th message (its share for output 6
+    is never sent): both survivors complete output 5, party 1 never completes output 6.  After its 6th
+    message: only party 2 completes output 5.  Before any message: nothing completes. *)
+Example C36_exec_nonvacuous :
+  let prog := [Input 0; Input 1; Input 2; Mul 7%Z 0 1; Mul 5%Z 3 2; Output 4 [0; 1; 2]; Output 3 [1]] in
+  let inputs := [(0, 5%Z); (1, 7%Z); (2, 11%Z)] in
+  let tapes := [(0, 0, [13%Z]); (1, 1, [62%Z]); (2, 2, [82%Z]); (3, 0, [1%Z]); (3, 1, [2%Z]); (3, 2, [3%Z]);
+                (4, 0, [4%Z]); (4, 1, [5%Z]); (4, 2, [6%Z])] in
+  let order := x_prog_order 101%Z 3 1 prog inputs tapes 0 in
+  length order = 8 /\
+  x_cf_results 101%Z 3 1 prog inputs tapes = [(0, 5, 82%Z); (1, 5, 82%Z); (1, 6, 35%Z); (2, 5, 82%Z)] /\
+  x_run_closed 101%Z 3 1 prog inputs tapes 0 order 8 = [(1, 5, 82%Z); (1, 6, 35%Z); (2, 5, 82%Z)] /\
+  x_run_closed 101%Z 3 1 prog inputs tapes 0 order 7 = [(1, 5, 82%Z); (2, 5, 82%Z)] /\
+  x_run_closed 101%Z 3 1 prog inputs tapes 0 order 6 = [(2, 5, 82%Z)] /\
+  x_run_closed 101%Z 3 1 prog inputs tapes 0 order 0 = [].
+Proof. vm_compute. repeat split; reflexivity. Qed.
